@@ -267,8 +267,11 @@ pub fn mask(out: &mut Out, thorough: bool) {
                 let ch = hash_int(bases.0[*i].to_string() + &pk.b.to_string() + &cv.to_string() + &t.to_string());
                 out.push(&format!("{}/pok_mi[{}]/s1/m[{}]", tag, k, i), "generate_proof", vec![format!("floor(s1 / c) vs m[{}]", i)],
                     if masked(&s1, &ch, &m[*i].value) { "accept".into() } else { "reject".into() }, &["expect-accept", "mask"]);
-                out.push(&format!("{}/pok_mi[{}]/s2/randomness", tag, k), "generate_proof", vec!["floor(s2 / c) vs commitment randomness".into()],
-                    if masked(&s2, &ch, &cr) { "accept".into() } else { "reject".into() }, &["expect-accept", "mask"]);
+                if cr != 0 {
+                    // (after the repair of F9 the opening randomness is not on the wire: not observable from outside)
+                    out.push(&format!("{}/pok_mi[{}]/s2/randomness", tag, k), "generate_proof", vec!["floor(s2 / c) vs commitment randomness".into()],
+                        if masked(&s2, &ch, &cr) { "accept".into() } else { "reject".into() }, &["expect-accept", "mask"]);
+                }
             }
             // proof of value of r (the randomness of C)
             let (t, s1) = (get_int(at(&j, "/CL03/proof_r/value/t")), get_int(at(&j, "/CL03/proof_r/value/s1")));
